@@ -132,6 +132,9 @@ func runC11(c *Ctx) {
 		cfs := defaultIdpCfg()
 		cfs.Endpoints = &provider.EndpointConfig{SingleSignOn: ep("/v2/SSO/"), SingleLogOut: ep("v2/SLO/"), Attribute: ep("/v2/attribute/"), Certificate: ep("/v2/cert/"), Callback: ep("/v2/login/")}
 		cfgs = append(cfgs, c11Config{"trailing-slash-paths", cfs, static(cfs.Issuer)})
+		cfn := defaultIdpCfg()
+		cfn.Endpoints = &provider.EndpointConfig{SingleSignOn: ep("/saml"), SingleLogOut: ep("/saml/logout"), Attribute: ep("/saml/attributes"), Certificate: ep("/saml/certificate/pem"), Callback: ep("/saml/login")}
+		cfgs = append(cfgs, c11Config{"nested-paths", cfn, static(cfn.Issuer)})
 		cf3 := defaultIdpCfg()
 		cf3.MetadataEP = ep("/meta/data.xml")
 		cfgs = append(cfgs, c11Config{"metadata-path", cf3, static(cf3.Issuer)})
